@@ -155,12 +155,14 @@ CLAIMS["C14"] = {
             "dropped, added or reordered; the rebuilt text is `/` + those segments joined by `/`), rewritten to the "
             "route's localized form and back yields the original segments, and localize_path on the path text (plain, "
             "with a trailing slash, with doubled slashes) against a table of two routes finds a route exactly when one "
-            "matches and rebuilds that same normalised text.",
+            "matches and rebuilds that same normalised text, and through two-route tables per locale (`docs` localized) "
+            "there and back is the original text.",
     "note": "Both parts are bounded stand-ins, not counted as proved; the second is a native enumeration of the extracted "
             "real code (Verus rejects labelled break/continue; CBMC did not finish a 2-segment x 2-route symbolic harness "
             "in 280 s), every failure it reports is a concrete failing input. Shims: PathSegment = leptos_router 0.7.8's "
             "definition copied, HashSet<usize> array-backed. Not covered: get_new_path (signals, Url, query string and "
-            "fragment), round trips through tables of several routes with different localizations, the locale prefix "
+            "fragment), round trips in which a parameter value equals another route's localized static (D12, section 4 of DESIGN.md: "
+            "a genuine counterexample, outside the enumerated universe), the locale prefix "
             "added by get_new_path, route generation (I18nNestedRoute), a base path that is not followed by a segment "
             "boundary, longer paths / routes and other segment texts.",
     "design_ref": "DESIGN.md sections 8.12, 8.22",
